@@ -87,13 +87,25 @@ def c01_history(e1: int, p1: int, g1: int, e2: int, p2: int, g2: int, d: int, v:
         var = S.get('var', 'default')
         wa = w.mk_watcher('a', **scen.variant(var, numprocesses=S.get('n0', 2), singleton=S.get('singleton', False),
                                              warmup_delay=S.get('warm', 0), graceful_timeout=0.2))
-        w.boot([wa])
+        if S.get('front_raises'):
+            # a higher-priority neighbour whose every respawn fails with an error the watcher does not handle (refused in the
+            # pre-exec step): its management raises on every periodic check; watcher a must be kept at its target regardless
+            import subprocess
+            wf = w.mk_watcher('f', numprocesses=1, graceful_timeout=0.2, priority=10)
+            w.boot([wf, wa])
+            w.kernel.spawn_error_tags['f'] = subprocess.SubprocessError('Exception occurred in preexec_fn.')
+            w.kernel.external_kill(w.kernel.alive_pids('f')[0])
+        else:
+            w.boot([wa])
         if S.get('dmax', 0) > 0 and d > 0:
             w.kernel.injections.append({'at_call': w.kernel.calls + d, 'victim': ('nth', v),
                                         'status': core.status_signal(9)})
         sc = Sched(w)
         try:
             sc.gap(g1)
+            if S.get('killfail') is not None:
+                # a transient fault: the n-th signal delivery from now on fails once with EPERM (the count must converge all the same)
+                w.kernel.kill_errors.add(w.kernel.kill_count + S['killfail'])
             r1 = sc.apply(e1, p1)
             if S.get('K', 2) >= 2:
                 sc.gap(g2)
@@ -278,6 +290,11 @@ def plan(tier):
             sh.append({'e1': e, 'K': 1, 'n0': 2, 'beh': 2, 'var': 'gt0'})
         for e in (scen.EV_RELOAD, scen.EV_RELOAD_SEQ, scen.EV_XKILL, scen.EV_DECR):
             sh.append({'e1': e, 'K': 1, 'n0': 2, 'beh': 0, 'var': 'send_hup'})
+        for e in (scen.EV_XKILL, scen.EV_EXIT, scen.EV_CHECK):
+            sh.append({'e1': e, 'K': 2, 'n0': 2, 'beh': 0, 'front_raises': True, 'gaps': 'two', 'pmin': -1, 'pmax': 1})
+        for e in (scen.EV_DECR, scen.EV_SETNP, scen.EV_RELOAD, scen.EV_RELOAD_SEQ):
+            for kf in (0, 1):
+                sh.append({'e1': e, 'K': 1, 'n0': 2, 'beh': 0, 'killfail': kf, 'gaps': 'two'})
         for e in (scen.EV_TIME, scen.EV_DECR, scen.EV_XKILL, scen.EV_INCR):
             sh.append({'e1': e, 'K': 1, 'n0': 2, 'beh': 0, 'var': 'max_age', 'dmax': 10})
     else:
@@ -287,6 +304,10 @@ def plan(tier):
                 sh.append({'e1': e, 'K': 1, 'n0': 3, 'beh': beh, 'dmax': 40, 'warm': 0.3})
             sh.append({'e1': e, 'K': 2, 'n0': 1, 'beh': 0, 'singleton': True})
             sh.append({'e1': e, 'K': 2, 'n0': 2, 'beh': 0, 'dmax': 12})
+            sh.append({'e1': e, 'K': 2, 'n0': 2, 'beh': 0, 'front_raises': True})
+            for kf in (0, 1, 2):
+                sh.append({'e1': e, 'K': 2, 'n0': 2, 'beh': 0, 'killfail': kf, 'gaps': 'two'})
+                sh.append({'e1': e, 'K': 1, 'n0': 2, 'beh': 2, 'killfail': kf})
             for var in ('gt0', 'send_hup', 'max_age', 'stop_children'):
                 sh.append({'e1': e, 'K': 2, 'n0': 2, 'beh': 2 if var == 'gt0' else 0, 'var': var, 'gaps': 'two'})
     step_sh = [{'np': n, 'm': m, 'dmax': 12 if q else 30, 'beh': 0}
@@ -297,7 +318,7 @@ def plan(tier):
         Cond('c01_history', shards=sh, budget=150 if q else 1500, twins=2,
              bounds={'e1': 'S: shard key over the 11-event menu', 'e2': 'S[0,10]', 'p1,p2': 'R[-2,3] (quick K=2: [-1,1]) (nb / numprocesses / victim / exit status)',
                      'g1,g2': 'S{now, 1 turn, 2 turns, quiescence} (quick K=2: {now, quiescence})', 'd': 'R[0,dmax] kernel call of an injected SIGKILL death',
-                     'v': 'S{0,1} victim', 'var': 'S: configuration variant {default, graceful_timeout 0, send_hup, max_age, stop_children}', 'n0': 'S{1,2,3}', 'beh': 'S{obey, obey after 0.15 s, ignore, alternating}'},
+                     'v': 'S{0,1} victim', 'var': 'S: configuration variant {default, graceful_timeout 0, send_hup, max_age, stop_children}', 'front_raises': 'S: a higher-priority neighbour watcher whose management raises on every check', 'killfail': 'S: the n-th signal delivery after the first event begins fails once with EPERM', 'n0': 'S{1,2,3}', 'beh': 'S{obey, obey after 0.15 s, ignore, alternating}'},
              smoke=[({'e1': scen.EV_DECR, 'K': 2, 'n0': 2}, dict(e1=4, p1=1, g1=0, e2=3, p2=2, g2=3, d=0, v=0))]),
         Cond('c01_step', shards=step_sh, budget=150 if q else 1200, twins=2,
              bounds={'np': 'S[0,%d]' % (2 if q else 3), 'm': 'S[0,%d] table entries' % (2 if q else 3),
